@@ -115,7 +115,11 @@ class Explorer:
             elif t.startswith('nop::') and t in self.db.records and not self.db.records[t]['fields']:
                 doms.append([('unk',)])     # tag types
             else:
-                doms.append([('elem',)])
+                # an element value from outside - or, for assignments, the object's OWN live element (`r = r.get()`): the operation
+                # must not destroy the element before it has read from it
+                own = [('own',)] if (not fn.get('ctor') and getattr(self.ad, 'alias_own_element', False) and
+                                     strip_cvref(p['t']) in getattr(self.ad, 'element_types', lambda: ())()) else []
+                doms.append([('elem',)] + own)
         out = [()]
         for d in doms:
             out = [o + (x,) for o in out for x in d]
@@ -138,6 +142,9 @@ class Explorer:
                 args.append(absx.Loc(('A',)))
             elif c[0] == 'elem':
                 args.append(absx.Elem(w.fresh('ext')))
+            elif c[0] == 'own':
+                live = sorted(p for p, v in w.storage.items() if p and p[0] == 'A' and v == 'live')
+                args.append(absx.Loc(live[0]) if live else absx.Elem(w.fresh('ext')))
             elif c[0] == 'val':
                 args.append(c[1])
             elif c[0] == 'visitor':
@@ -477,13 +484,24 @@ def copy_not_hijacked(chk, db, rule, rects, minimum=4, text=None):
         roots = ([f['body']] if 'body' in f else []) + [i.get('e') for i in f.get('inits', []) if i.get('e')]
         for r in roots:
             for y in ir.walk(r):
-                if y.get('k') != 'ctor' or len(y.get('args', [])) != 1:
+                is_assign = y.get('k') == 'call' and (y.get('callee') or {}).get('n') == 'operator=' and len(y.get('args', [])) == 2
+                if not is_assign and (y.get('k') != 'ctor' or len(y.get('args', [])) != 1):
                     continue
                 cal = y.get('callee') or {}
                 rec = cal.get('rec')
                 if not rec or not any(cal.get('rect') == x for x in rects):
                     continue
-                a = y['args'][0]
+                a = y['args'][-1]
+                if is_assign:
+                    # `x = y` with y of x's own class (or derived from it): the copy / move assignment operator, not a template
+                    at = strip(ir.strip_all_casts(a).get('t') or a.get('t'))
+                    if rec not in bases_of(at):
+                        continue
+                    key = (f['file'], y.get('loc', {}).get('l'), y.get('loc', {}).get('c'), rec + ' =')
+                    ok = bool(cal.get('copyassign') or cal.get('moveassign'))
+                    if key not in seen or (not ok and seen[key][0]):
+                        seen[key] = (ok, f, at)
+                    continue
                 at = strip(ir.strip_all_casts(a).get('t') or a.get('t'))
                 if rec not in bases_of(at):
                     continue
@@ -492,6 +510,9 @@ def copy_not_hijacked(chk, db, rule, rects, minimum=4, text=None):
                 if key not in seen or (not ok and seen[key][0]):
                     seen[key] = (ok, f, at)
     for (file, line, col, rec), (ok, f, at) in sorted(seen.items()):
-        chk.decide(ok, rule, '%s:%s:%s' % (file, line, col), '%s constructed from a %s: %s' % (
-            rec.replace('nop::', '')[:70], at.replace('nop::', '')[:60], 'copy / move constructor selected' if ok else
-            'a converting / forwarding constructor is selected instead of the copy constructor'), function=ir.fn_label(f))
+        assign = rec.endswith(' =')
+        chk.decide(ok, rule, '%s:%s:%s' % (file, line, col), '%s %s a %s: %s' % (
+            rec.replace('nop::', '')[:70].rstrip(' ='), 'assigned from' if assign else 'constructed from', at.replace('nop::', '')[:60],
+            ('copy / move %s selected' % ('assignment' if assign else 'constructor')) if ok else
+            'a converting / forwarding %s is selected instead of the copy %s' % (('assignment', 'assignment') if assign else ('constructor', 'constructor'))),
+            function=ir.fn_label(f))
